@@ -25,7 +25,7 @@ RULE = (
 ASSUMPTIONS = ["triples: coefficient None and 1 are the same coefficient when a variable is present", "factor() bound 10^12 (float division is exact below 2^53)"]
 SHARDS = {"quick": 8, "thorough": 16}
 DEADLINE = {"quick": 50, "thorough": 420}
-REQUIRED = {"like:sums": 200, "like:arrangements": 2000, "alike:pairs": 3000, "alike:term-result-pairs": 3000, "alike:reflexive": 500, "termex:texts": 300, "maketerm:triples": 200,
+REQUIRED = {"like:sums": 200, "like:sum-inside-a-wrapper": 50, "like:arrangements": 2000, "alike:pairs": 3000, "alike:term-result-pairs": 3000, "alike:reflexive": 500, "termex:texts": 300, "maketerm:triples": 200,
             "factor:n": 2000, "factor:asked-again-after-editing-the-result": 500, "noraise:has_like_terms": 500, "noraise:get_sub_terms": 500, "noraise:is_preferred_term_form": 500,
             "like:answer:True": 50, "like:answer:False": 50, "alike:answer:True": 100}
 
@@ -118,7 +118,12 @@ def check_like_terms(rec, rng):
 
     terms = [addend(rng) for _ in range(rng.randint(2, 6))]
     answers = {}
-    for text in arrangements(rng, terms, limit=rng.choice([6, 24])):
+    # sometimes the whole sum sits inside something (a factor, the base of a power, a negation, a function
+    # argument, one operand of a larger sum): the answer still does not depend on how the sum is arranged
+    wrap = rng.choice(["{}", "{}", "{}", "3 * ({})", "({})^2 + z", "-({})", "sgn({})", "({}) * y", "7 + 2({})", "({}) / 4", "q - ({})"])
+    if wrap != "{}":
+        rec.arm("like:sum-inside-a-wrapper")
+    for text in (wrap.format(t) for t in arrangements(rng, terms, limit=rng.choice([6, 24]))):
         try:
             root = D.parse(text)
         except Exception:
